@@ -76,12 +76,19 @@ let show_outcome (o : Errs.outcome) : string =
   let code = match Errs.outcome_code o with Some c -> int_of_z c | None -> 0 in
   match o with
   | Errs.OResult raw -> Printf.sprintf "R|%d|-|%s" code (hexfield_of_bytes raw)
-  | Errs.OLost -> "L|0|-|-"
+  | Errs.OLost -> "L|0|-|-"   (* never produced by the model since fix F16 (c14_reply_never_lost) *)
   | Errs.OErr Errs.ECanceled -> Printf.sprintf "C|%d|-|-" code
   | Errs.OErr Errs.EDeadline -> Printf.sprintf "D|%d|-|-" code
   | Errs.OErr (Errs.EJrpc (c, m, d)) ->
     Printf.sprintf "J|%d|%s|%s" code (hexfield_of_bytes m) (hexfield_of_bytes d)
   | Errs.OErr e -> Printf.sprintf "O|%d|%s|-" code (hexfield_of_bytes (Errs.error_text e))
+
+(* a reply as it is on the wire (family B) *)
+let show_wreply (w : Errs.wreply) : string =
+  match w with
+  | Errs.WResult raw -> Printf.sprintf "R|0|-|%s" (hexfield_of_bytes raw)
+  | Errs.WError w -> Printf.sprintf "J|%s" (show_werr w)
+  | Errs.WLost -> "L|0|-|-"
 
 let split2 (s : string) : string * string =
   match String.index_opt s ':' with
@@ -118,9 +125,11 @@ let () =
         let e = parse_term t in
         let text = if Errs.is_nil e then "nil" else hexfield_of_bytes (Errs.error_text e) in
         let o = Errs.call (Errs.ResJson (bytes_of_string "true")) e in
-        (* the Go-side JSON-equality monitor applies when a top-level *Error arrives as a *Error *)
+        (* the Go-side JSON-equality monitor applies when a top-level *Error arrives as a *Error;
+           data that do not encode (wire_data = None) must have been dropped (fix F16) *)
         let eq = match e, o with
-          | Errs.EJrpc _, Errs.OErr (Errs.EJrpc _) -> "1"
+          | Errs.EJrpc (_, _, d), Errs.OErr (Errs.EJrpc _) ->
+            (match Errs.wire_data d with Some _ -> "1" | None -> "d")
           | _ -> "-" in
         let exp = Printf.sprintf "%d|%s|%s|%s" (int_of_z (Errs.error_code e)) text (show_outcome o) eq in
         report_case ln ~expected:exp ~got:obs
@@ -135,6 +144,17 @@ let () =
           | "live" -> Errs.CtxLive
           | _ -> raise (Bad_case "ctx-mode") in
         let exp = show_outcome (Errs.call_ctx true cs (hres_of rkind rarg) (parse_term t)) in
+        report_case ln ~expected:exp ~got:obs
+      | "B" :: (_ :: _ :: _ :: _ :: _ as rest) ->
+        (* one Client.Batch: triples (rkind, rarg, term), then the observation *)
+        let rec members = function
+          | [obs] -> ([], obs)
+          | rkind :: rarg :: t :: tl ->
+            let (ms, obs) = members tl in
+            ((hres_of rkind rarg, parse_term t) :: ms, obs)
+          | _ -> raise (Bad_case "batch-fields") in
+        let (ms, obs) = members rest in
+        let exp = String.concat "/" (List.map show_wreply (Errs.batch ms)) in
         report_case ln ~expected:exp ~got:obs
       | ["N"; rkind; rarg; t; obs] ->
         let exp = match Errs.notify (hres_of rkind rarg) (parse_term t) with
